@@ -84,8 +84,10 @@ def explore(check, obs, configs, limit=None, invariants=('NoFault', 'NoForeignSi
     if random:
         if obs is not None:
             judge(check, obs, random_runs(check))
+            judge(check, obs, teardown_runs(check))
         else:
             runs += random_runs(check)
+            runs += teardown_runs(check)
     return runs
 
 
@@ -152,6 +154,29 @@ def waiter_runs(check, kind, n=None):
     check.extra['waiter_storm_programs'] = n
     check.programs += n
     return [(p, t, 1, world) for p, t in zip(progs, traces)]
+
+
+def teardown_runs(check, n=None):
+    """storm.teardown_program: children blocked in every kind of wait are cancelled / closed / left behind, then the
+    root inspects what is left (task outcomes, lock, supply, queue)"""
+    import random
+    import storm
+    if n is None:
+        n = 3000 if check.tier == 'quick' else 40000
+    progs = [storm.teardown_program(random.Random('td%d/%d' % (check.seed, i))) for i in range(n)]
+    world = world_args(storm.BIG)
+    WORLD.clear()
+    WORLD.update(world)
+    out = []
+    try:
+        for nr in (1, 2):
+            sel = [p['roots'] for p in progs if len(p['roots']) == nr]
+            out += [(p, r[0], nr, world) for p, r in zip(sel, run_many(sel, nr))]
+    finally:
+        WORLD.clear()
+    check.extra['teardown_storm'] = n
+    check.programs += n
+    return out
 
 
 def run_many(progs, nroots, procs=16, starts=None):
